@@ -134,12 +134,26 @@ Print Assumptions C15_spok_loop_ties_range_proofs.
 Theorem C15_spok_subproofs_untied :
   forall CS BP p ck pk bases rmsgs U nsm pmi' rpmi',
   spok_verify CS BP p ck pk bases rmsgs U nsm = Ok true ->
+  length pmi' = length U -> length rpmi' = length U ->
   spok_verify_loop CS BP ck U pmi' rpmi' = Ok true ->
   spok_verify CS BP (with_subproofs p pmi' rpmi') ck pk bases rmsgs U nsm = Ok true.
 Proof. exact spok_subproofs_untied. Qed.
 Check (C15_spok_subproofs_untied :
   forall CS BP p ck pk bases rmsgs U nsm pmi' rpmi',
   spok_verify CS BP p ck pk bases rmsgs U nsm = Ok true ->
+  length pmi' = length U -> length rpmi' = length U ->
   spok_verify_loop CS BP ck U pmi' rpmi' = Ok true ->
   spok_verify CS BP (with_subproofs p pmi' rpmi') ck pk bases rmsgs U nsm = Ok true).
 Print Assumptions C15_spok_subproofs_untied.
+
+(* fix F17: an accepted proof carries exactly one response, one opening proof and one range proof per hidden attribute *)
+Theorem C15_spok_accepts_lengths :
+  forall CS BP p ck pk bases rmsgs U nsm,
+  spok_verify CS BP p ck pk bases rmsgs U nsm = Ok true ->
+  length (sp_s5 (pk_spok p)) = length U /\ length (pk_pmi p) = length U /\ length (pk_rpmi p) = length U.
+Proof. exact spok_accepts_lengths. Qed.
+Check (C15_spok_accepts_lengths :
+  forall CS BP p ck pk bases rmsgs U nsm,
+  spok_verify CS BP p ck pk bases rmsgs U nsm = Ok true ->
+  length (sp_s5 (pk_spok p)) = length U /\ length (pk_pmi p) = length U /\ length (pk_rpmi p) = length U).
+Print Assumptions C15_spok_accepts_lengths.
